@@ -563,6 +563,37 @@ def justpool(run, fx):
         run.broken('UNDO', 'justify record pool', 'expected the two record addresses (p, next) of the free-list loop, found %d' % n, fn.where())
 
 
+def posdirbool(run, fx):
+    """REVERSEPAIR: positionSlots compares the stream's current direction -- one bit -- with the direction it is asked for.  justify
+    hands it the segment's whole direction byte (rtl bit, mirroring / bidi flags, the 'currently reversed' bit 64), so the value that
+    is compared must be a truth value: a `bool` parameter (the conversion at the call collapses the flags), or an expression masked to
+    bit 0.  Compared as a byte, 64 != currdir() always holds: the stream is reversed and re-reversed on every call, m_first / m_last are
+    rewritten under justify's feet and delLineEnd frees a live slot."""
+    fn = fx.one('graphite2::Segment::positionSlots')
+    inst = 'positionSlots compares the current direction with a truth value'
+    n, bad = 0, None
+    for _, e in fn.elements():
+        if e['k'] == 'BinaryOperator' and e.get('op') in ('!=', '=='):
+            sides = [fn.strip_all_casts(fn.N(c_)) for c_ in e['c']]
+            cd = [x for x in sides if x['k'] == 'CXXMemberCallExpr' and (x.get('fq') or '').endswith('Segment::currdir')]
+            if len(cd) != 1:
+                continue
+            other = [x for x in sides if x is not cd[0]][0]
+            n += 1
+            t = (other.get('t') or '').replace('const ', '')
+            masked = other['k'] == 'BinaryOperator' and other.get('op') == '&' and any(fn.strip_all_casts(fn.N(c_)).get('v') == 1 for c_ in other['c'])
+            if t != 'bool' and not masked:
+                bad = (e, other, t)
+    if n < 1:
+        run.broken('REVERSEPAIR', inst, 'no comparison with currdir() found in positionSlots', fn.where())
+    elif bad:
+        e, other, t = bad
+        run.violated('REVERSEPAIR', inst, fn.loc(e), 'positionSlots compares currdir() with `%s`, a `%s`: Segment::justify passes the whole direction byte (the reversed bit 64, the mirroring / bidi flags), '
+                     'so the comparison fires although the stream already has the wanted order -- an extra pair of reversals rewrites m_first / m_last while justify holds its line-end markers in them' % (fn.render(other), t))
+    else:
+        run.held('REVERSEPAIR', inst, fn.where(), '%d comparison(s), against a bool' % n)
+
+
 def posreverse(run, fx):
     """REVERSEPAIR for Segment::positionSlots (justify positions a line through it, with the caller's direction): when it reverses the
     stream on entry it reverses it back on exit.  reverseSlots() toggles the segment's current direction, so the decision for the second
@@ -767,6 +798,78 @@ def lineend_exec(run, fx, rule='LINEENDPAIR', maxn=4):
     return cases, None
 
 
+def jsonpair(run):
+    """UNDO, the build with tracing compiled in: Segment::justify writes one record per call into the face's json log -- it opens an
+    object and an array in front of the justification passes and closes them after.  The writer keeps its open contexts on a fixed
+    stack, so every path through justify closes exactly what it opened: the possible nesting depths at the function's exit, computed by
+    a forward dataflow over `<< json::object / json::array` (+1) and `<< json::close` (-1), are {0}.  (A closing block that runs under a
+    narrower condition than the opening one leaves two contexts behind on every such call; some sixty calls later the writer overruns
+    its stack.)"""
+    fx = run.facts('tracejust')
+    fn = fx.one('graphite2::Segment::justify')
+    inst = '[tracejust] justify closes every json context it opens, on every path'
+    delta = {}
+    nops = 0
+    for b in fn.blocks:
+        d = 0
+        for e in fn.blocks[b]['el']:
+            if e['k'] == 'CXXOperatorCallExpr' and (e.get('fq') or '').endswith('operator<<'):
+                for a in (e.get('args') or [])[1:]:
+                    x = fn.strip_all_casts(fn.N(a)) if a is not None else {}
+                    nm = (x.get('d') or '').split('::')[-1] if x.get('k') == 'DeclRefExpr' else ''
+                    if (x.get('d') or '').startswith('graphite2::json::'):
+                        if nm in ('object', 'array'):
+                            d += 1
+                            nops += 1
+                        elif nm == 'close':
+                            d -= 1
+                            nops += 1
+        delta[b] = d
+    if nops < 4:
+        run.broken('UNDO', inst, 'only %d json open / close manipulators found in the tracing build of Segment::justify' % nops, fn.where())
+        return
+    # states are (depth, what is known about conditions that test one never-reassigned local, e.g. `if (dbgout)` twice)
+    def const_test(b):
+        blk = fn.blocks[b]
+        t = blk.get('term') or {}
+        if len(blk['succ']) != 2 or t.get('cond') is None or t.get('condx') is not None:
+            return None
+        x = fn.strip_all_casts(fn.N(t['cond']))
+        if x['k'] == 'DeclRefExpr' and x.get('vid') is not None and (x.get('vid') in fn.const_init or 'const' in (x.get('t') or '').split('*')[-1]):
+            return x['vid']
+        return None
+    depth = {fn.entry: {(0, ())}}
+    work = [fn.entry]
+    while work:
+        b = work.pop()
+        cv = const_test(b)
+        for (dp, kn) in list(depth[b]):
+            nd = min(9, max(-9, dp + delta[b]))
+            known = dict(kn)
+            for idx_, s_ in enumerate(fn.blocks[b]['succ']):
+                if s_ is None:
+                    continue
+                k2 = kn
+                if cv is not None:
+                    want = (idx_ == 0)
+                    if cv in known and known[cv] != want:
+                        continue
+                    kk = dict(known)
+                    kk[cv] = want
+                    k2 = tuple(sorted(kk.items()))
+                cur = depth.setdefault(s_, set())
+                if (nd, k2) not in cur:
+                    cur.add((nd, k2))
+                    work.append(s_)
+    at_exit = {d_ for d_, _k in depth.get(fn.exit, set())}
+    if at_exit == {0}:
+        run.held('UNDO', inst, fn.where(), '%d open / close manipulators; depth 0 at the exit on every path' % nops)
+    else:
+        run.violated('UNDO', inst, fn.where(), 'with tracing compiled in, Segment::justify can return with %s json context(s) still open (possible depths at its exit: %s): the opening of the '
+                     '"justifies" record and its closing run under different conditions, every such call leaves contexts on the writer\'s fixed 128-entry stack, and after some sixty calls '
+                     'while logging the writer runs over its own pointers' % (sorted(x for x in at_exit if x != 0), sorted(at_exit)))
+
+
 def run(run):
     vm = R.get_vm(run)
     fx = vm.fx
@@ -793,6 +896,14 @@ def run(run):
             run.held('LINEENDPAIR', inst_le, ale_.where(), '%d abstract executions' % cases_)
     except AnalysisBroken as ex:
         run.broken('LINEENDPAIR', inst_le, str(ex), '')
+    from . import c16 as c16_
+    from .util import OnlyRules
+    c16_.dtorguards(OnlyRules(run, ['OWNFIELD'], {'OWNFIELD': 'UNDO'}), fx)        # 'gr_seg_destroy still releases the whole segment' (shared with C16)
+    if not run.cfg_tag:
+        try:
+            jsonpair(run)
+        except AnalysisBroken as ex:
+            run.broken('UNDO', '[tracejust] justify closes every json context it opens, on every path', str(ex), '')
     poolsize(run, fx)
     poolcount(run, fx)
     from . import posexec
@@ -831,6 +942,7 @@ def run(run):
     linebreak(run, fx)
     nullwalk(run, fx)
     posreverse(run, fx)
+    posdirbool(run, fx)
     c03.nomutpos(run, vm)
     from . import c02
     c02.advidx(run, fx)      # justify positions with the caller's gr_font: the hinted-advance cache index (shared with C02)
